@@ -50,6 +50,9 @@ _COV = re.compile(r"^<(\w+) line \d+, col \d+ to line \d+, col \d+ of module (\w
 _STATS = re.compile(r"^(\d+) states generated, (\d+) distinct states found, (\d+) states left on queue")
 _DEPTH = re.compile(r"The depth of the complete state graph search is (\d+)")
 _SIMSTATS = re.compile(r"The number of states generated: (\d+)")
+_RESOURCES = re.compile(r"insufficient memory for the Java Runtime|Cannot allocate memory|unable to create (new )?native thread|"
+                        r"pthread_create failed|Could not reserve enough space|java\.lang\.OutOfMemoryError|"
+                        r"GC overhead limit exceeded|failed to map segment|Native memory allocation")
 
 
 def prepare_dir(ctx, name):
@@ -93,15 +96,25 @@ def run(ctx, module, cfg, *, name=None, workers=None, simulate=None, depth=None,
         e.update(env)
     t0 = time.time()
     res = TLCResult()
-    try:
-        p = subprocess.run(cmd, cwd=d, env=e, stdout=subprocess.PIPE, stderr=subprocess.STDOUT,
-                           timeout=timeout, text=True, errors="replace")
-        out = p.stdout
-        rc = p.returncode
-    except subprocess.TimeoutExpired as ex:
-        out = ex.stdout if isinstance(ex.stdout, str) else (ex.stdout or b"").decode("utf-8", "replace")
-        rc = -9
-        res.timed_out = True
+    for attempt in (1, 2, 3):
+        try:
+            p = subprocess.run(cmd, cwd=d, env=e, stdout=subprocess.PIPE, stderr=subprocess.STDOUT,
+                               timeout=timeout, text=True, errors="replace")
+            out = p.stdout
+            rc = p.returncode
+        except subprocess.TimeoutExpired as ex:
+            out = ex.stdout if isinstance(ex.stdout, str) else (ex.stdout or b"").decode("utf-8", "replace")
+            rc = -9
+            res.timed_out = True
+        # the JVM could not get memory / threads from a machine that is busy with other work: that says
+        # nothing about the specification - wait and run the same command again (at most twice)
+        if not res.timed_out and rc != 0 and attempt < 3 and _RESOURCES.search(out or ""):
+            print("  TLC on %s hit a resource limit of the machine (attempt %d), repeating in %d s"
+                  % (name, attempt, 30 * attempt), flush=True)
+            shutil.rmtree(os.path.join(d, "meta"), ignore_errors=True)
+            time.sleep(30 * attempt)
+            continue
+        break
     res.wall = time.time() - t0
     res.out = out
     _parse(res, out)
